@@ -130,43 +130,45 @@ def generate(tier, rng):
 
     quick = tier == 'quick'
     # ---- exhaustive small scope -----------------------------------------------------------------------
-    # full product: trains x labellings x binsize x W x id orders x symmetrize
+    # (a) full grid: trains x labellings x binsize x W; quick: the four (id order, symmetrize) settings
+    #     cycle over the grid (each occurs three times per train x labelling); thorough: both symmetrize
+    #     settings everywhere, id order alternating
     kfull, gfull = (3, 5) if quick else (4, 5)
-    nlab_full = 3
-    for t in _trains(kfull, gfull):
-        for lab in itertools.product(range(nlab_full), repeat=len(t)):
-            labels = [_IDMAP[v] for v in lab]
-            orders = _id_orders(nlab_full, False)
-            for bs in (1, 2, 3):
-                for W in (0, 1, 2, 3):
-                    for oi, ids in enumerate(orders):
-                        for sym in (False, True):
-                            # window alternates between 2W*bin (exact) and (2W+1)*bin (int() truncates)
-                            win = (2 * W + ((len(t) + bs + oi) % 2)) * bs
-                            if win == 0:
-                                win = bs
-                            cases.append(_mk(t, labels, ids, 1, bs, win, sym))
-    # longer trains: every train x labelling once, parameters cycling through the grid
-    kmax, gmax = (4, 5) if quick else (6, 7)
+    orders3 = _id_orders(3, False)
     n = 0
-    for t in _trains(kmax, gmax):
-        if len(t) <= kfull:
-            continue
-        nl = 3 if (quick or len(t) > 5) else 4
-        if not quick and len(t) == 6:
-            nl = 2
-        for lab in itertools.product(range(nl), repeat=len(t)):
+    for t in _trains(kfull, gfull):
+        for lab in itertools.product(range(3), repeat=len(t)):
             labels = [_IDMAP[v] for v in lab]
             n += 1
-            bs = (1, 2, 3)[n % 3]
-            W = (0, 1, 2, 3)[(n // 3) % 4]
-            orders = _id_orders(nl, not quick)
-            ids = orders[(n // 12) % len(orders)]
-            if (n // 7) % 11 == 0:
-                ids = None
-            sym = bool((n // 5) % 2)
-            win = max(bs, (2 * W + (n % 2)) * bs)
-            cases.append(_mk(t, labels, ids, 1, bs, win, sym))
+            for bi, bs in enumerate((1, 2, 3)):
+                for W in (0, 1, 2, 3):
+                    c = (n + bi + W) % 4
+                    # window alternates between 2W*bin (exact) and (2W+1)*bin (int() truncates)
+                    win = max(bs, (2 * W + ((n + bi) % 2)) * bs)
+                    if quick:
+                        cases.append(_mk(t, labels, orders3[c % 2], 1, bs, win, c // 2))
+                    else:
+                        cases.append(_mk(t, labels, orders3[c % 2], 1, bs, win, False))
+                        cases.append(_mk(t, labels, orders3[c % 2], 1, bs, win, True))
+    # (b) longer trains / more clusters: every train x labelling once, parameters cycling through the grid
+    scopes = [(4, 4, 5, 3)] if quick else [(5, 5, 5, 3), (6, 6, 4, 2), (1, 4, 5, 4)]
+    for kmin, kmax, gmax, nl in scopes:
+        orders = _id_orders(nl, not quick)
+        for t in _trains(kmax, gmax):
+            if len(t) < kmin:
+                continue
+            for lab in itertools.product(range(nl), repeat=len(t)):
+                if nl == 4 and 3 not in lab:
+                    continue                     # covered by the three-cluster scopes
+                labels = [_IDMAP[v] for v in lab]
+                n += 1
+                bs = (1, 2, 3)[n % 3]
+                W = (0, 1, 2, 3)[(n // 3) % 4]
+                ids = orders[(n // 12) % len(orders)]
+                if (n // 7) % 11 == 0:
+                    ids = None
+                win = max(bs, (2 * W + (n % 2)) * bs)
+                cases.append(_mk(t, labels, ids, 1, bs, win, bool((n // 5) % 2)))
     # firing_rate: all labellings of length <= 4 (5) x id orders x bin/duration
     for k in range(0, 5 if quick else 6):
         for lab in itertools.product(range(3), repeat=k):
